@@ -94,3 +94,30 @@ def decode(b, mode64=True):
         d["modrm"] = b[i]
     d["rest"] = b[i:]
     return d
+
+
+PTR_BYTES = {"BYTE": 1, "WORD": 2, "DWORD": 4, "QWORD": 8, "XMMWORD": 16, "YMMWORD": 32, "TBYTE": 10, "FWORD": 6}
+
+
+def mem_widths(lines, workdir, tag="w"):
+    """bytes of memory touched by each instruction string (None when the line
+    does not assemble or has no sized memory operand), read from objdump's
+    Intel-syntax `<SIZE> PTR` annotation."""
+    enc, rejected = assemble(lines, workdir, True, tag)
+    obj = os.path.join(workdir, "%s.o" % tag)
+    out = [None] * len(lines)
+    if not any(e is not None for e in enc):
+        return out
+    dis = subprocess.run(["objdump", "-d", "-M", "intel", "--no-show-raw-insn", obj], stdout=subprocess.PIPE, text=True, check=True).stdout
+    cur = None
+    for l in dis.splitlines():
+        m = re.match(r"^[0-9a-f]+ <L(\d+)>:", l)
+        if m:
+            cur = int(m.group(1))
+            continue
+        if cur is None or ":" not in l:
+            continue
+        m = re.search(r"\b(BYTE|WORD|DWORD|QWORD|XMMWORD|YMMWORD|TBYTE|FWORD) PTR", l)
+        if m and out[cur] is None:
+            out[cur] = PTR_BYTES[m.group(1)]
+    return out
